@@ -40,17 +40,19 @@ def scenarios(tier):
     for name, prog in programs().items():
         n = wfgen.program_size(prog)
         assigns = wfgen.result_assignments(prog)
-        if len(assigns) > (4 if quick else 32):
+        if len(assigns) > (3 if quick else 32):
             keys = wfgen.action_keys(prog)
             pick = [{k: ['S'] for k in keys}]
             for k in keys:
                 pick.append({x: ['E' if x == k else 'S'] for x in keys})
             if not quick:
                 pick.append({k: ['E'] for k in keys})
-            assigns = pick[:(4 if quick else 64)]
+            assigns = pick[:(3 if quick else 64)]
         for res in assigns:
             tag = ''.join(res[k][0] for k in sorted(res))
             for cc in (False, True):
+                if quick and cc and n > 4:
+                    continue
                 scn = wfscn.ProgScenario(
                     '%s/%s/%s' % (name, tag, 'evict' if cc else 'cached'),
                     prog, results=res, clear_caches=cc)
@@ -70,7 +72,7 @@ def scenarios(tier):
 def main(tier):
     rep = common.Report(PROP, tier)
     jobs = common.rotate(scenarios(tier))
-    deadline = time.time() + (170 if tier == 'quick' else 3000)
+    deadline = time.time() + (150 if tier == 'quick' else 3000)
     res = common.parallel_map(common.explore_job, [j[:4] for j in jobs],
                               deadline=deadline)
     rep.add_explore_results(jobs, res)
